@@ -31,12 +31,22 @@ Definition EDuplicatedKey : N := 17.
 (* store limits and mode *)
 Record cfg := { c_ext : bool;            (* useExternalCommitAllowance (sync replication) *)
                 c_maxActive : N;         (* MaxActiveTransactions (= size of the precommit buffer) *)
-                c_maxKeyLen : N; c_maxValueLen : N; c_maxTxEntries : N }.
+                c_maxKeyLen : N; c_maxValueLen : N; c_maxTxEntries : N;
+                (* performPrecommit assigns tx.header.BlRoot only when blTxID > 0: with blTxID = 0
+                   the pooled tx holder keeps the BlRoot of its previous use (true = the code as
+                   found; false = BlRoot cleared, the proposed repair).  The harness determines the
+                   value by a probe of the implementation on every run. *)
+                c_stale : bool;
+                (* Options.EmbeddedValues: values live in the tx log, each record is preceded by
+                   (total length, values); the reload loop of OpenWith does not skip that prefix and
+                   takes no precommitted record back *)
+                c_embedded : bool }.
 
 (* an entry as recorded by precommit: key, metadata, value hash, and the value unless the
    exporting side had truncated it (then Value = nil, vLen = 0, hVal = the carried digest) *)
 Record rentry := { re_key : bytes; re_md : option kvmd; re_hval : bytes; re_val : option bytes }.
-Record txrec := { t_hdr : txhdr; t_ents : list rentry }.
+(* t_alh: the Alh the store keeps beside the record (precommit buffer / commit log entry / AHT leaf) *)
+Record txrec := { t_hdr : txhdr; t_ents : list rentry; t_alh : bytes }.
 
 Definition okv_bytes (m : option kvmd) : bytes :=
   match m with Some m => kvmd_bytes m | None => [] end.
@@ -101,19 +111,26 @@ Definition alh (h : txhdr) : bytes :=
 (* s_tail is the physical content of the tx log after the last committed record, in file order;
    the flag tells whether the record is a live precommitted transaction (true) or was discarded by
    DiscardPrecommittedTxsSince (false: still in the file, re-read by the next Open). *)
-Record store := { s_com : list txrec; s_tail : list (txrec * bool); s_allowed : N }.
+(* s_hold: header.BlRoot left in the pooled tx holder that precommit obtains from fetchAllocTx
+   (sequential calls always get the same holder). *)
+(* s_ghost: records still in the file behind the logical end of the tx log (left there by a reopening
+   that did not take them back); the next append overwrites them. *)
+Record store := { s_com : list txrec; s_tail : list (txrec * bool); s_allowed : N; s_hold : bytes;
+                  s_ghost : list txrec }.
 
-Definition store_init : store := {| s_com := []; s_tail := []; s_allowed := 0 |}.
+Definition store_init : store :=
+  {| s_com := []; s_tail := []; s_allowed := 0; s_hold := zeros32; s_ghost := [] |}.
 
 Definition live (t : list (txrec * bool)) : list txrec := map fst (filter snd t).
 Definition chain (st : store) : list txrec := s_com st ++ live (s_tail st).
+(* Alh of the last transaction; sha256.Sum256(nil) for an empty store *)
 Definition last_alh (l : list txrec) : bytes :=
-  match rev l with [] => zeros32 | r :: _ => alh (t_hdr r) end.
+  match rev l with [] => H [] | r :: _ => t_alh r end.
 Definition com_id (st : store) : N := lenN (s_com st).
 Definition pre_id (st : store) : N := lenN (chain st).
 Definition com_alh (st : store) : bytes := last_alh (s_com st).
 Definition pre_alh (st : store) : bytes := last_alh (chain st).
-Definition alhs (st : store) : list bytes := map (fun r => alh (t_hdr r)) (chain st).
+Definition alhs (st : store) : list bytes := map t_alh (chain st).
 
 (* AHtree.RootAt(n), 1 <= n <= size, over the Alh values of all (pre)committed transactions *)
 Definition root_at (n : N) (l : list bytes) : bytes := mth H (takeN n l).
@@ -134,7 +151,10 @@ Definition may_commit (c : cfg) (st : store) : store :=
   let n := target - com_id st in
   if n =? 0 then st else
   let '(a, b) := take_live (N.to_nat n) (s_tail st) in
-  {| s_com := s_com st ++ a; s_tail := b; s_allowed := s_allowed st |}.
+  (* cLogBuf.readAhead fails when fewer than n transactions are precommitted: error, no change *)
+  if lenN a <? n then st else
+  {| s_com := s_com st ++ a; s_tail := b; s_allowed := s_allowed st; s_hold := s_hold st;
+     s_ghost := s_ghost st |}.
 
 (* digest(): copy into a [32]byte *)
 Definition digest32 (v : bytes) : bytes := take hsize (v ++ repeat 0 32).
@@ -148,9 +168,12 @@ Definition spec_entry_ok (c : cfg) (tr : bool) (e : xentry) : bool :=
   negb (len (x_key e) =? 0) && (len (x_key e) <=? c_maxKeyLen c) &&
   (tr || (len (x_val e) <=? c_maxValueLen c)).
 
-(* ImmuStore.ReplicateTx(exportedTx, skipIntegrityCheck): framing, then precommit against the
-   expected header.  Err = an error was returned and the store is unchanged. *)
-Definition replicate (c : cfg) (skip : bool) (st : store) (b : bytes) : res store :=
+(* what precommit has established when it reaches performPrecommit *)
+Record checked := { k_hdr : txhdr; k_ents : list rentry; k_eh : bytes; k_blroot : bytes }.
+
+(* ImmuStore.ReplicateTx(exportedTx, skipIntegrityCheck) up to the call of performPrecommit:
+   framing, OngoingTx.set, BuildHashTree and the comparisons against the expected header *)
+Definition precheck (c : cfg) (skip : bool) (st : store) (b : bytes) : res checked :=
   do p <- repl_parse b;
   let '(hdr, xes, tr) := p in
   (* txSpec.set per entry: ErrNullKey / ErrMaxKeyLenExceeded / ErrMaxValueLenExceeded *)
@@ -170,22 +193,58 @@ Definition replicate (c : cfg) (skip : bool) (st : store) (b : bytes) : res stor
   let blroot := if 0 <? h_bltxid hdr then root_at (h_bltxid hdr) (alhs st) else zeros32 in
   if negb (beq blroot (h_blroot hdr)) then Err EIllegalArguments else
   if negb (beq (pre_alh st) (h_prevalh hdr)) then Err EIllegalArguments else
-  (* performPrecommit: cLogBuf.put fails when the precommit buffer is full *)
+  Ok {| k_hdr := hdr; k_ents := ents; k_eh := eh; k_blroot := blroot |}.
+
+(* BlRoot in the tx holder once performPrecommit has set the header fields *)
+Definition hold_after (c : cfg) (st : store) (k : checked) : bytes :=
+  if 0 <? h_bltxid (k_hdr k) then k_blroot k
+  else if c_stale c then s_hold st else zeros32.
+
+(* the record performPrecommit serialises and appends to the tx log *)
+Definition new_rec (c : cfg) (st : store) (k : checked) : txrec :=
+  let hdr := k_hdr k in
+  let h' := {| h_id := pre_id st + 1; h_prevalh := pre_alh st; h_ts := h_ts hdr;
+               h_version := h_version hdr; h_md := h_md hdr; h_nentries := lenN (k_ents k);
+               h_eh := k_eh k; h_bltxid := h_bltxid hdr; h_blroot := hold_after c st k |} in
+  {| t_hdr := h'; t_ents := k_ents k; t_alh := alh h' |}.
+
+(* performPrecommit; cLogBuf.put fails when the precommit buffer is full *)
+Definition perform (c : cfg) (st : store) (k : checked) : res store :=
   if c_maxActive c <=? lenN (live (s_tail st)) then Err EBufferFull else
-  let h' := {| h_id := preid + 1; h_prevalh := pre_alh st; h_ts := h_ts hdr;
-               h_version := h_version hdr; h_md := h_md hdr; h_nentries := lenN xes;
-               h_eh := eh; h_bltxid := h_bltxid hdr; h_blroot := blroot |} in
   let st' := {| s_com := s_com st;
-                s_tail := s_tail st ++ [({| t_hdr := h'; t_ents := ents |}, true)];
-                s_allowed := s_allowed st |} in
+                s_tail := s_tail st ++ [(new_rec c st k, true)];
+                s_allowed := s_allowed st; s_hold := hold_after c st k; s_ghost := [] |} in
   Ok (may_commit c st').
+
+(* Ok = a header was returned; Err = an error was returned and the store's transactions are
+   unchanged *)
+Definition replicate (c : cfg) (skip : bool) (st : store) (b : bytes) : res store :=
+  do k <- precheck c skip st b; perform c st k.
+
+(* the store after a call that did not return a header.  Only a failure inside performPrecommit
+   (precommit buffer full) has touched anything: the tx holder, and the tx log, to which the
+   record was appended before cLogBuf.put failed -- it stays behind the logical end of the log,
+   is overwritten by the next append, and is found by the reload loop of the next Open. *)
+Definition failed_st (c : cfg) (skip : bool) (st : store) (b : bytes) : store :=
+  match precheck c skip st b with
+  | Ok k => {| s_com := s_com st; s_tail := s_tail st; s_allowed := s_allowed st;
+               s_hold := hold_after c st k; s_ghost := [new_rec c st k] |}
+  | _ => st
+  end.
+(* state after ReplicateTx whatever its outcome *)
+Definition replicate_st (c : cfg) (skip : bool) (st : store) (b : bytes) : store :=
+  match replicate c skip st b with
+  | Ok st' => st'
+  | _ => failed_st c skip st b
+  end.
 
 (* ImmuStore.AllowCommitUpto *)
 Definition allow_commit (c : cfg) (st : store) (t : N) : res store :=
   if negb (c_ext c) then Err EIllegalState else
   if t <=? s_allowed st then Ok st else
   let a := if pre_id st <? t then pre_id st else t in
-  Ok (may_commit c {| s_com := s_com st; s_tail := s_tail st; s_allowed := a |}).
+  Ok (may_commit c {| s_com := s_com st; s_tail := s_tail st; s_allowed := a; s_hold := s_hold st;
+                      s_ghost := s_ghost st |}).
 
 (* marks the last n live records of the tail as discarded *)
 Definition kill_last (n : nat) (t : list (txrec * bool)) : list (txrec * bool) :=
@@ -203,7 +262,8 @@ Definition discard (st : store) (t : N) : res (store * N) :=
   if t <=? com_id st then Err EIllegalArguments else
   if pre_id st <? t then Ok (st, 0) else
   let n := pre_id st + 1 - t in
-  Ok ({| s_com := s_com st; s_tail := kill_last (N.to_nat n) (s_tail st); s_allowed := s_allowed st |}, n).
+  Ok ({| s_com := s_com st; s_tail := kill_last (N.to_nat n) (s_tail st); s_allowed := s_allowed st;
+         s_hold := s_hold st; s_ghost := s_ghost st |}, n).
 
 (* Close + Open: the tx log is re-read from the committed offset; records are taken back as
    precommitted while they chain (ID = previous+1, PrevAlh = previous Alh), the rest is dropped
@@ -213,12 +273,34 @@ Fixpoint reload (cur : N) (curalh : bytes) (l : list txrec) : list txrec :=
   | [] => []
   | r :: t =>
       if (h_id (t_hdr r) =? cur + 1) && beq (h_prevalh (t_hdr r)) curalh
-      then r :: reload (cur + 1) (alh (t_hdr r)) t else []
+      then {| t_hdr := t_hdr r; t_ents := t_ents r; t_alh := alh (t_hdr r) |}
+           :: reload (cur + 1) (alh (t_hdr r)) t
+      else []
+  end.
+
+(* everything physically in the tx log behind the committed offset, in file order *)
+Definition physical (st : store) : list txrec := map fst (s_tail st) ++ s_ghost st.
+
+(* The reopened store's first tx holder has read the last committed transaction, then every record
+   the reload loop got a header of (the reloaded ones and the first that does not chain); its
+   header is the last of them.  (With embedded values the loop mis-parses the values prefix and
+   reads no header; partially overwritten records are taken to be unparsable.) *)
+Definition hold_reopen (c : cfg) (st : store) (back : list txrec) : bytes :=
+  let dflt := match rev back with
+              | r :: _ => h_blroot (t_hdr r)
+              | [] => match rev (s_com st) with r :: _ => h_blroot (t_hdr r) | [] => zeros32 end
+              end in
+  if c_embedded c then dflt else
+  match nth_error (physical st) (length back) with
+  | Some r => h_blroot (t_hdr r)
+  | None => dflt
   end.
 
 Definition restart (c : cfg) (st : store) : store :=
-  let back := reload (com_id st) (com_alh st) (map fst (s_tail st)) in
-  may_commit c {| s_com := s_com st; s_tail := map (fun r => (r, true)) back; s_allowed := com_id st |}.
+  let back := if c_embedded c then [] else reload (com_id st) (com_alh st) (physical st) in
+  may_commit c {| s_com := s_com st; s_tail := map (fun r => (r, true)) back; s_allowed := com_id st;
+                  s_hold := hold_reopen c st back;
+                  s_ghost := skipn (length back) (physical st) |}.
 
 (* Alh of transaction t (1-based) among committed and precommitted ones: ReadTxHeader(t, true).Alh() *)
 Definition alh_at (st : store) (t : N) : option bytes :=
@@ -245,8 +327,9 @@ Record report := { r_uuid : N; r_cid : N; r_calh : bytes; r_pid : N; r_palh : by
 
 Definition p_alh_at (p : primary) (t : N) : option bytes :=
   if t =? 0 then None else nth_error (p_alhs p) (N.to_nat (t - 1)).
+(* committedAlh of the primary's store: sha256.Sum256(nil) while nothing is committed *)
 Definition p_last_alh (p : primary) (t : N) : bytes :=
-  match p_alh_at p t with Some a => a | None => zeros32 end.
+  match p_alh_at p t with Some a => a | None => H [] end.
 
 (* the primary precommits one more transaction of its own (its commit waits for the allowance) *)
 Definition p_precommit (p : primary) (a : bytes) : primary :=
